@@ -263,7 +263,7 @@ theorem step_relTh (s s' : St) (e : Ev) (ht : ThInv s.th) (h : RelTh s.th) (hs :
     exact relTh_set _ h b _ _ hb (by intro _ _ _ _ _ he; cases he) (by intro _ _ _ _ he; cases he)
       (by intro _ _ _ _ _ he; cases he)
       (by intro r' pcb he; cases he
-          exact ⟨_, rfl, by intro g; rcases g with g | g <;> cases g, by intro g; cases g⟩)
+          exact ⟨_, rfl, (by intro g; rcases g with g | g <;> cases g), (by intro g; cases g)⟩)
       (by intro r' pcb he; cases he; exact ⟨_, rfl⟩)
   | retSetCtx a u =>
     simp only [step] at hs; split at hs <;> try simp at hs
@@ -280,7 +280,7 @@ theorem step_relTh (s s' : St) (e : Ev) (ht : ThInv s.th) (h : RelTh s.th) (hs :
     split at hs <;> simp at hs <;> subst hs
     · rename_i k pc live self told hr
       rw [hr0] at hr; cases hr
-      rw [List.set_comm _ _ _ hne]
+      rw [List.set_comm _ _ hne]
       have h1 : RelTh (s.th.set b (TS.rel r .cs)) :=
         relTh_set _ h b _ _ hb (by intro _ _ _ _ _ he; cases he) (by intro _ _ _ _ he; cases he)
           (by intro _ _ _ _ _ he; cases he)
@@ -360,7 +360,7 @@ theorem step_relTh (s s' : St) (e : Ev) (ht : ThInv s.th) (h : RelTh s.th) (hs :
     simp only [step] at hs; split at hs <;> try simp at hs
     rename_i k ha
     obtain ⟨_, hs⟩ := hs
-    have hno : ∀ b pcb, s.th[b]? ≠ some (TS.rel a pcb) := by
+    have hno : ∀ (b : Nat) (pcb : RelPc), s.th[b]? ≠ some (TS.rel a pcb) := by
       intro b pcb hb
       obtain ⟨k0, l0, f0, sf0, t0, hr0⟩ := ht.target b a pcb hb
       rw [ha] at hr0; cases hr0
@@ -417,5 +417,327 @@ theorem reachable_relTh (es : List Ev) (s : St) (h : model.run model.init es = s
       (fun s e s' hi hs => ⟨step_thinv s s' e hi.1 hs, step_relTh s s' e hi.1 hi.2 hs⟩) _ _ es
       ⟨thinv_nil, relTh_nil⟩ h
   exact this.2
+
+/-! ## configuration fields -/
+
+theorem startResolve_cfg (s0 : St) :
+    (startResolve s0).cfgd = s0.cfgd ∧ (startResolve s0).keep = s0.keep ∧ (startResolve s0).ctx = s0.ctx := by
+  rw [startResolve_eq]; split <;> simp [spawned]
+
+theorem afterRemove_cfg (s0 : St) :
+    (afterRemove s0).cfgd = s0.cfgd ∧ (afterRemove s0).keep = s0.keep ∧ (afterRemove s0).ctx = s0.ctx := by
+  unfold afterRemove; split
+  · split
+    · simp
+    · exact ⟨rfl, rfl, rfl⟩
+  · exact ⟨rfl, rfl, rfl⟩
+
+/-- `cfg` sets the configuration once; afterwards only `SetContext` changes the context -/
+theorem cfg_frame (s s' : St) (e : Ev) (hs : step s e = some s') :
+    (∃ kp c t, e = .cfg kp c t ∧ s.cfgd = false ∧ s'.cfgd = true ∧ s'.keep = kp ∧ s'.ctx = c) ∨
+    (s'.cfgd = s.cfgd ∧ s'.keep = s.keep ∧ ((∀ a, e ≠ .setCtxCS a) → s'.ctx = s.ctx)) := by
+  cases e with
+  | cfg kp c t =>
+    simp only [step] at hs; split at hs <;> simp at hs
+    rename_i hc
+    subst hs
+    exact Or.inl ⟨kp, c, t, rfl, by simpa using hc, rfl, rfl, rfl⟩
+  | relRun r =>
+    simp only [step] at hs; split at hs <;> try simp at hs
+    split at hs <;> try simp at hs
+    split at hs <;> simp at hs <;> obtain ⟨_, rfl⟩ := hs
+    · have := startResolve_cfg { s with relRuns := s.relRuns.eraseIdx r, owner := .other }
+      exact Or.inr ⟨this.1, this.2.1, fun _ => this.2.2⟩
+    · exact Or.inr ⟨rfl, rfl, fun _ => rfl⟩
+  | envReleased k =>
+    simp only [step] at hs; split at hs <;> simp at hs; subst hs
+    exact Or.inr ⟨rfl, rfl, fun _ => rfl⟩
+  | invAddRef a kd => simp only [step] at hs; split at hs <;> simp at hs; subst hs; exact Or.inr ⟨rfl, rfl, fun _ => rfl⟩
+  | invHook a => simp only [step] at hs; split at hs <;> simp at hs; subst hs; exact Or.inr ⟨rfl, rfl, fun _ => rfl⟩
+  | retAddRef a =>
+    simp only [step] at hs; split at hs <;> try simp at hs
+    obtain ⟨_, rfl⟩ := hs; exact Or.inr ⟨rfl, rfl, fun _ => rfl⟩
+  | invRelease b r =>
+    simp only [step] at hs; split at hs <;> try simp at hs
+    split at hs <;> try simp at hs
+    subst hs; exact Or.inr ⟨rfl, rfl, fun _ => rfl⟩
+  | relSwap b =>
+    simp only [step] at hs; split at hs <;> try simp at hs
+    split at hs <;> simp at hs <;> subst hs <;> exact Or.inr ⟨rfl, rfl, fun _ => rfl⟩
+  | retRelease b =>
+    simp only [step] at hs; split at hs <;> try simp at hs
+    obtain ⟨_, rfl⟩ := hs; exact Or.inr ⟨rfl, rfl, fun _ => rfl⟩
+  | selfRelSwap a =>
+    simp only [step] at hs; split at hs <;> try simp at hs
+    obtain ⟨_, hs⟩ := hs
+    split at hs <;> simp at hs <;> subst hs <;> exact Or.inr ⟨rfl, rfl, fun _ => rfl⟩
+  | invSetCtx a c cl => simp only [step] at hs; split at hs <;> simp at hs; subst hs; exact Or.inr ⟨rfl, rfl, fun _ => rfl⟩
+  | retSetCtx a u =>
+    simp only [step] at hs; split at hs <;> try simp at hs
+    obtain ⟨_, rfl⟩ := hs; exact Or.inr ⟨rfl, rfl, fun _ => rfl⟩
+  | envCancelCtx c => simp only [step] at hs; split at hs <;> simp at hs; subst hs; exact Or.inr ⟨rfl, rfl, fun _ => rfl⟩
+  | quiesce B => simp only [step] at hs; split at hs <;> simp at hs; subst hs; exact Or.inr ⟨rfl, rfl, fun _ => rfl⟩
+  | probe v er => simp only [step] at hs; split at hs <;> simp at hs; subst hs; exact Or.inr ⟨rfl, rfl, fun _ => rfl⟩
+  | cb it =>
+    simp only [step] at hs; split at hs <;> try simp at hs
+    obtain ⟨_, rfl⟩ := hs; exact Or.inr ⟨rfl, rfl, fun _ => rfl⟩
+  | enter j k =>
+    simp only [step] at hs; split at hs <;> try simp at hs
+    obtain ⟨_, rfl⟩ := hs; exact Or.inr ⟨rfl, rfl, fun _ => rfl⟩
+  | giveUp j =>
+    simp only [step] at hs; split at hs <;> try simp at hs
+    obtain ⟨_, rfl⟩ := hs; exact Or.inr ⟨rfl, rfl, fun _ => rfl⟩
+  | drained j =>
+    simp only [step] at hs; split at hs <;> try simp at hs
+    obtain ⟨_, rfl⟩ := hs; exact Or.inr ⟨rfl, rfl, fun _ => rfl⟩
+  | leave j k v hr er =>
+    simp only [step] at hs; split at hs <;> try simp at hs
+    obtain ⟨_, rfl⟩ := hs; exact Or.inr ⟨rfl, rfl, fun _ => rfl⟩
+  | done j =>
+    simp only [step] at hs; split at hs <;> try simp at hs
+    obtain ⟨_, rfl⟩ := hs; exact Or.inr ⟨rfl, rfl, fun _ => rfl⟩
+  | store j =>
+    simp only [step] at hs; split at hs <;> try simp at hs
+    split at hs <;> try simp at hs
+    obtain ⟨_, hs⟩ := hs
+    split at hs
+    · simp at hs; subst hs; exact Or.inr ⟨rfl, rfl, fun _ => rfl⟩
+    · split at hs <;> simp at hs <;> subst hs <;> exact Or.inr ⟨rfl, rfl, fun _ => rfl⟩
+  | addRefCS a =>
+    simp only [step] at hs; split at hs <;> try simp at hs
+    rename_i k ha
+    obtain ⟨_, hs⟩ := hs
+    split at hs
+    · simp at hs; subst hs
+      have := startResolve_cfg { s with th := s.th.set a (.ref k .done true false false none), owner := .thr a }
+      exact Or.inr ⟨this.1, this.2.1, fun _ => this.2.2⟩
+    · split at hs <;> simp at hs <;> subst hs <;> exact Or.inr ⟨rfl, rfl, fun _ => rfl⟩
+  | relCS b =>
+    simp only [step] at hs; split at hs <;> try simp at hs
+    rename_i r hb
+    split at hs <;> try simp at hs
+    case h_2 => obtain ⟨_, rfl⟩ := hs; exact Or.inr ⟨rfl, rfl, fun _ => rfl⟩
+    rename_i k pc flag self told hr
+    obtain ⟨_, rfl⟩ := hs
+    have := afterRemove_cfg { s with th := (s.th.set r (.ref k pc false flag self told)).set b (.rel r .done), owner := .thr b }
+    exact Or.inr ⟨this.1, this.2.1, fun _ => this.2.2⟩
+  | selfRelCS a =>
+    simp only [step] at hs; split at hs <;> try simp at hs
+    rename_i pc flag told ha
+    obtain ⟨_, rfl⟩ := hs
+    have := afterRemove_cfg { s with th := s.th.set a (.ref .hook pc false flag false told), owner := .self a }
+    exact Or.inr ⟨this.1, this.2.1, fun _ => this.2.2⟩
+  | setCtxCS a =>
+    simp only [step] at hs; split at hs <;> try simp at hs
+    rename_i c cl u ha
+    split at hs <;> simp at hs <;> obtain ⟨_, rfl⟩ := hs
+    · exact Or.inr ⟨rfl, rfl, fun h => absurd rfl (h a)⟩
+    · have := startResolve_cfg { s with ctx := c, th := s.th.set a (.ctx c cl .done true), owner := .thr a }
+      exact Or.inr ⟨this.1, this.2.1, fun h => absurd rfl (h a)⟩
+
+/-- the critical section of `SetContext` -/
+theorem setCtx_cs (s s' : St) (a : Nat) (hs : step s (.setCtxCS a) = some s') :
+    ∃ c cl u0 u, s.th[a]? = some (TS.ctx c cl .inv u0) ∧ s'.th[a]? = some (TS.ctx c cl .done u) ∧ s'.ctx = c ∧
+      (u = true → s'.nonce = s.nonce + 1) := by
+  simp only [step] at hs; split at hs <;> try simp at hs
+  rename_i c cl u ha
+  have hlt := lt_of_getElem? ha
+  split at hs <;> simp at hs <;> obtain ⟨_, rfl⟩ := hs
+  · rename_i hc _
+    exact ⟨c, cl, u, false, ha, by simp [hlt], hc, by intro h; cases h⟩
+  · refine ⟨c, cl, u, true, ha, ?_, ?_, fun _ => ?_⟩
+    · rw [startResolve_th, shutdown_th]
+      split
+      · rw [tellAll_get]; simp [hlt, tell1]
+      · simp [hlt]
+    · exact (startResolve_cfg _).2.2
+    · rw [startResolve_eq]; split <;> simp [spawned]
+
+/-! ## `SetContext` threads keep their fields -/
+
+def UpdSame (th th' : List TS) : Prop :=
+  ∀ (a c : Nat) (cl : Bool) (pc : Pc) (u : Bool), th[a]? = some (TS.ctx c cl pc u) →
+    ∃ pc', th'[a]? = some (TS.ctx c cl pc' u)
+
+theorem updSame_refl (th : List TS) : UpdSame th th := fun a c cl pc u h => ⟨pc, h⟩
+
+theorem updSame_trans (t1 t2 t3 : List TS) (h1 : UpdSame t1 t2) (h2 : UpdSame t2 t3) : UpdSame t1 t3 := by
+  intro a c cl pc u h
+  obtain ⟨pc', h'⟩ := h1 a c cl pc u h
+  exact h2 a c cl pc' u h'
+
+theorem updSame_tellAll (th : List TS) (t : Option Nat) : UpdSame th (tellAll th t) := by
+  intro a c cl pc u h
+  exact ⟨pc, by rw [tellAll_get, h]; simp [tell1]⟩
+
+theorem updSame_append (th : List TS) (x : TS) : UpdSame th (th ++ [x]) :=
+  fun a c cl pc u h => ⟨pc, getElem?_snoc_left _ _ _ _ h⟩
+
+theorem updSame_set_other (th : List TS) (r : Nat) (new : TS)
+    (h : ∀ c cl pc u, th[r]? ≠ some (TS.ctx c cl pc u)) : UpdSame th (th.set r new) := by
+  intro a c cl pc u ha
+  have : r ≠ a := by intro e; subst e; exact h c cl pc u ha
+  exact ⟨pc, by rw [getElem?_set_ne' _ _ _ _ this]; exact ha⟩
+
+theorem updSame_set_ctx (th : List TS) (a c : Nat) (cl : Bool) (pc pc' : Pc) (u : Bool)
+    (h : th[a]? = some (TS.ctx c cl pc u)) : UpdSame th (th.set a (TS.ctx c cl pc' u)) := by
+  intro b c2 cl2 pc2 u2 hb
+  by_cases hab : a = b
+  · subst hab
+    rw [h] at hb; cases hb
+    exact ⟨pc', by simp [lt_of_getElem? h]⟩
+  · exact ⟨pc2, by rw [getElem?_set_ne' _ _ _ _ hab]; exact hb⟩
+
+theorem updSame_shutdown (s0 : St) : UpdSame s0.th (shutdown s0).th := by
+  rw [shutdown_th]; split
+  · exact updSame_tellAll _ _
+  · exact updSame_refl _
+
+theorem updSame_startResolve (s0 : St) : UpdSame s0.th (startResolve s0).th := by
+  rw [startResolve_th]; exact updSame_shutdown s0
+
+theorem updSame_afterRemove (s0 : St) : UpdSame s0.th (afterRemove s0).th := by
+  unfold afterRemove
+  split
+  · split
+    · exact updSame_shutdown s0
+    · exact updSame_refl _
+  · exact updSame_refl _
+
+/-- only its own critical section changes the `updated` result of a `SetContext` call -/
+theorem upd_frame (s s' : St) (e : Ev) (hs : step s e = some s') (a c : Nat) (cl : Bool) (pc : Pc) (u : Bool)
+    (h : s.th[a]? = some (TS.ctx c cl pc u)) (hne : e ≠ .setCtxCS a) :
+    ∃ pc', s'.th[a]? = some (TS.ctx c cl pc' u) := by
+  have notctx_ref : ∀ (r : Nat) (k : CbKind) (p : Pc) (l f sf : Bool) (t : Option Nat),
+      s.th[r]? = some (TS.ref k p l f sf t) → ∀ c cl pc u, s.th[r]? ≠ some (TS.ctx c cl pc u) := by
+    intro r k p l f sf t hr c cl pc u e; rw [hr] at e; cases e
+  have notctx_rel : ∀ (r r2 : Nat) (p : RelPc),
+      s.th[r]? = some (TS.rel r2 p) → ∀ c cl pc u, s.th[r]? ≠ some (TS.ctx c cl pc u) := by
+    intro r r2 p hr c cl pc u e; rw [hr] at e; cases e
+  by_cases hall : ∀ a0, e ≠ .setCtxCS a0
+  case neg =>
+    have hex : ∃ a0, e = .setCtxCS a0 := by
+      cases e <;> first | exact ⟨_, rfl⟩ | exact absurd (fun a0 h => by cases h) hall
+    obtain ⟨a0, rfl⟩ := hex
+    have hne0 : a0 ≠ a := by intro e; subst e; exact hne rfl
+    simp only [step] at hs; split at hs <;> try simp at hs
+    rename_i c0 cl0 u0 ha0
+    split at hs <;> simp at hs <;> obtain ⟨_, rfl⟩ := hs
+    · exact ⟨pc, by rw [getElem?_set_ne' _ _ _ _ hne0]; exact h⟩
+    · exact updSame_startResolve { s with ctx := c0, th := s.th.set a0 (.ctx c0 cl0 .done true), owner := .thr a0 }
+        a c cl pc u (by show (s.th.set a0 _)[a]? = _; rw [getElem?_set_ne' _ _ _ _ hne0]; exact h)
+  suffices hsame : UpdSame s.th s'.th from hsame a c cl pc u h
+  cases e with
+  | cfg kp c t => simp only [step] at hs; split at hs <;> simp at hs; subst hs; exact updSame_refl _
+  | envCancelCtx c => simp only [step] at hs; split at hs <;> simp at hs; subst hs; exact updSame_refl _
+  | envReleased k => simp only [step] at hs; split at hs <;> simp at hs; subst hs; exact updSame_refl _
+  | quiesce B => simp only [step] at hs; split at hs <;> simp at hs; subst hs; exact updSame_refl _
+  | probe v er => simp only [step] at hs; split at hs <;> simp at hs; subst hs; exact updSame_refl _
+  | cb it =>
+    simp only [step] at hs; split at hs <;> try simp at hs
+    obtain ⟨_, rfl⟩ := hs; exact updSame_refl _
+  | enter i k =>
+    simp only [step] at hs; split at hs <;> try simp at hs
+    obtain ⟨_, rfl⟩ := hs; exact updSame_refl _
+  | giveUp i =>
+    simp only [step] at hs; split at hs <;> try simp at hs
+    obtain ⟨_, rfl⟩ := hs; exact updSame_refl _
+  | drained i =>
+    simp only [step] at hs; split at hs <;> try simp at hs
+    obtain ⟨_, rfl⟩ := hs; exact updSame_refl _
+  | leave i k v hr er =>
+    simp only [step] at hs; split at hs <;> try simp at hs
+    obtain ⟨_, rfl⟩ := hs; exact updSame_refl _
+  | done i =>
+    simp only [step] at hs; split at hs <;> try simp at hs
+    obtain ⟨_, rfl⟩ := hs; exact updSame_refl _
+  | store i =>
+    simp only [step] at hs; split at hs <;> try simp at hs
+    split at hs <;> try simp at hs
+    obtain ⟨_, hs⟩ := hs
+    split at hs
+    · simp at hs; subst hs; exact updSame_tellAll _ _
+    · split at hs <;> simp at hs <;> subst hs <;> exact updSame_refl _
+  | relRun r =>
+    simp only [step] at hs; split at hs <;> try simp at hs
+    split at hs <;> try simp at hs
+    split at hs <;> simp at hs <;> obtain ⟨_, rfl⟩ := hs
+    · exact updSame_startResolve { s with relRuns := s.relRuns.eraseIdx r, owner := .other }
+    · exact updSame_refl _
+  | invAddRef a k => simp only [step] at hs; split at hs <;> simp at hs; subst hs; exact updSame_append _ _
+  | invHook a => simp only [step] at hs; split at hs <;> simp at hs; subst hs; exact updSame_append _ _
+  | invRelease b r =>
+    simp only [step] at hs; split at hs <;> try simp at hs
+    split at hs <;> try simp at hs
+    subst hs; exact updSame_append _ _
+  | invSetCtx a c cl => simp only [step] at hs; split at hs <;> simp at hs; subst hs; exact updSame_append _ _
+  | retAddRef a =>
+    simp only [step] at hs; split at hs <;> try simp at hs
+    rename_i k l f sf t ha
+    obtain ⟨_, rfl⟩ := hs
+    exact updSame_set_other _ _ _ (notctx_ref _ _ _ _ _ _ _ ha)
+  | retRelease b =>
+    simp only [step] at hs; split at hs <;> try simp at hs
+    rename_i r hb
+    obtain ⟨_, rfl⟩ := hs
+    exact updSame_set_other _ _ _ (notctx_rel _ _ _ hb)
+  | retSetCtx a0 u0 =>
+    simp only [step] at hs; split at hs <;> try simp at hs
+    rename_i c0 cl0 u2 ha
+    obtain ⟨_, rfl⟩ := hs
+    exact updSame_set_ctx _ _ _ _ _ _ _ ha
+  | selfRelSwap a =>
+    simp only [step] at hs; split at hs <;> try simp at hs
+    rename_i pc l f sf t ha
+    obtain ⟨_, hs⟩ := hs
+    split at hs <;> simp at hs <;> subst hs
+    · exact updSame_refl _
+    · exact updSame_set_other _ _ _ (notctx_ref _ _ _ _ _ _ _ ha)
+  | relSwap b =>
+    simp only [step] at hs; split at hs <;> try simp at hs
+    rename_i r hb
+    split at hs <;> simp at hs <;> subst hs
+    · rename_i k pc l sf t hr
+      have hne' : r ≠ b := by intro e; subst e; rw [hb] at hr; cases hr
+      refine updSame_trans _ _ _ (updSame_set_other _ r _ (notctx_ref _ _ _ _ _ _ _ hr)) (updSame_set_other _ b _ ?_)
+      intro c cl pc u e
+      rw [getElem?_set_ne' _ _ _ _ hne', hb] at e; cases e
+    · exact updSame_set_other _ _ _ (notctx_rel _ _ _ hb)
+  | setCtxCS a0 => exact absurd rfl (hall a0)
+  | addRefCS a =>
+    simp only [step] at hs; split at hs <;> try simp at hs
+    rename_i k ha
+    obtain ⟨_, hs⟩ := hs
+    have h1 : ∀ t, UpdSame s.th (s.th.set a (TS.ref k .done true false false t)) := fun t =>
+      updSame_set_other _ _ _ (notctx_ref _ _ _ _ _ _ _ ha)
+    split at hs
+    · simp at hs; subst hs
+      exact updSame_trans _ _ _ (h1 none)
+        (updSame_startResolve { s with th := s.th.set a (.ref k .done true false false none), owner := .thr a })
+    · split at hs <;> simp at hs <;> subst hs
+      · simp only [List.set_set]; exact h1 s.cur
+      · exact h1 none
+  | relCS b =>
+    simp only [step] at hs; split at hs <;> try simp at hs
+    rename_i r hb
+    split at hs <;> try simp at hs
+    case h_2 =>
+      obtain ⟨_, rfl⟩ := hs
+      exact updSame_set_other _ _ _ (notctx_rel _ _ _ hb)
+    rename_i k pc flag self told hr
+    obtain ⟨_, rfl⟩ := hs
+    have hne' : r ≠ b := by intro e; subst e; rw [hb] at hr; cases hr
+    have h2 : UpdSame s.th ((s.th.set r (TS.ref k pc false flag self told)).set b (TS.rel r .done)) := by
+      refine updSame_trans _ _ _ (updSame_set_other _ r _ (notctx_ref _ _ _ _ _ _ _ hr)) (updSame_set_other _ b _ ?_)
+      intro c cl pc u e
+      rw [getElem?_set_ne' _ _ _ _ hne', hb] at e; cases e
+    exact updSame_trans _ _ _ h2
+      (updSame_afterRemove { s with th := (s.th.set r (.ref k pc false flag self told)).set b (.rel r .done), owner := .thr b })
+  | selfRelCS a =>
+    simp only [step] at hs; split at hs <;> try simp at hs
+    rename_i pc flag told ha
+    obtain ⟨_, rfl⟩ := hs
+    exact updSame_trans _ _ _ (updSame_set_other _ a _ (notctx_ref _ _ _ _ _ _ _ ha))
+      (updSame_afterRemove { s with th := s.th.set a (.ref .hook pc false flag false told), owner := .self a })
 
 end UtilModel.RefCount
